@@ -8,10 +8,14 @@
    Fourier integral of the indicator (C12_triangle_is_fourier_integral); with the fan decomposition this covers
    polygons of any size up to the same modelled step as C04 (a simple polygon's integral = signed sum over its fan).
    NOT proved: the degenerate directions (q perpendicular to an edge or to a chord: limits of the generic case), planes other
-   than xy (rigid-motion covariance), and the polyhedron/sphere analogues; those are decided by correspondence with
-   direct quadrature of the defining integral. *)
+   than xy (rigid-motion covariance), and the polyhedron analogue; those are decided by correspondence with
+   direct quadrature of the defining integral.
+   SPHERE: the two value expressions of Sphere.compute_form_factor_amplitude are regenerated from the source (Gen/Scalars.v,
+   sphere_ff_amp / sphere_ff_zero) and proved equal to the Fourier integral of the centred ball in spherical coordinates
+   (C12_sphere_is_fourier_integral); the phase factor exp(-i q.c) and the density are the last statement of the method, matched
+   textually by the translator. *)
 From Coq Require Import Reals List Lra.
-Require Import Cox.Num.Ops Cox.Geo.Vec Cox.Model.FormFactor Cox.Thm.FormFactorThm Cox.Thm.FormFactorIntegral Cox.Thm.TriangleFF Cox.Thm.PolygonFF.
+Require Import Cox.Num.Ops Cox.Geo.Vec Cox.Model.FormFactor Cox.Thm.FormFactorThm Cox.Thm.FormFactorIntegral Cox.Thm.TriangleFF Cox.Thm.PolygonFF Cox.Gen.Scalars Cox.Thm.SphereFF.
 Local Open Scope R_scope.
 
 (* F(-q) is the complex conjugate of F(q) *)
@@ -105,3 +109,27 @@ Print Assumptions C12_polygon_is_fan_of_fourier_integrals.
 Example C12_generic_example :
   generic_fan (1, 1 / 3) (0, 0) (2, 0) ((2, 1) :: (1, 1) :: (1, 2) :: (0, 2) :: nil).
 Proof. cbn [generic_fan]. unfold generic_tri. cbn [fst snd]. repeat split; lra. Qed.
+
+
+(* SPHERE: for every radius and every non-zero wave vector (|q| = q > 0) the amplitude formula of the source is the Fourier integral of
+   the centred ball written in spherical coordinates about the direction of q,
+       int_0^r int_0^pi 2 pi rho^2 sin(th) exp(-i q rho cos th) dth drho ,
+   whose imaginary part vanishes; and the value of the zero-q branch (the volume) is the same integral at q = 0. *)
+Theorem C12_sphere_is_fourier_integral :
+  forall r cx cy cz q, 0 < q -> 0 < r ->
+    sphere_ff_amp r cx cy cz (q ^ 2)
+    = @Coquelicot.RInt.RInt Coquelicot.Hierarchy.R_CompleteNormedModule
+        (fun rho => @Coquelicot.RInt.RInt Coquelicot.Hierarchy.R_CompleteNormedModule
+                      (fun th => 2 * PI * rho ^ 2 * sin th * cos (q * rho * cos th)) 0 PI) 0 r
+    /\ @Coquelicot.RInt.RInt Coquelicot.Hierarchy.R_CompleteNormedModule
+        (fun rho => @Coquelicot.RInt.RInt Coquelicot.Hierarchy.R_CompleteNormedModule
+                      (fun th => - (2 * PI * rho ^ 2 * sin th * sin (q * rho * cos th))) 0 PI) 0 r = 0
+    /\ sphere_ff_zero r cx cy cz
+       = @Coquelicot.RInt.RInt Coquelicot.Hierarchy.R_CompleteNormedModule
+           (fun rho => @Coquelicot.RInt.RInt Coquelicot.Hierarchy.R_CompleteNormedModule
+                         (fun th => 2 * PI * rho ^ 2 * sin th * cos (0 * rho * cos th)) 0 PI) 0 r.
+Proof.
+  intros r cx cy cz q Hq Hr. destruct (sphere_ff_is_fourier_integral r cx cy cz q Hq Hr) as [H1 H2].
+  split; [exact H1 | split; [exact H2 | exact (sphere_ff_zero_is_volume_integral r cx cy cz)]].
+Qed.
+Print Assumptions C12_sphere_is_fourier_integral.
